@@ -96,10 +96,7 @@ func CutCases(tier string) []CutCase {
 			for _, proto := range []string{"HTTP/1.1", "HTTP/1.0"} {
 				for _, end := range []string{"fin", "rst"} {
 					for k := 0; k <= len(reply); k++ {
-						if tier != "thorough" && route == "upstream" && k%3 != 0 && k != len(reply) {
-							continue
-						}
-						if tier != "thorough" && proto == "HTTP/1.0" && k%2 != 0 && k != len(reply) {
+						if tier != "thorough" && (route == "upstream" || proto == "HTTP/1.0") && k%4 != 0 && k != len(reply) {
 							continue
 						}
 						out = append(out, CutCase{
@@ -260,7 +257,7 @@ func (cr *CutRig) Run(c *CutCase) {
 		c.HarnessErr = "client write: " + err.Error()
 		return
 	}
-	co := ReadResponse(conn, false, 6*time.Second)
+	co := ReadResponse(conn, false, 2500*time.Millisecond)
 	c.Raw, c.RawLen, c.ClientEnd, c.Go = co.Raw, co.RawLen, co.End, co.P
 	c.ErrHdr, _ = co.P.Get("X-Forwarder-Error")
 	if co.End == "timeout" {
